@@ -79,15 +79,25 @@ func resolveNAT(p *Prog) *natRoles {
 		case res.Len() == 2 && res.At(0).Type().String() == "string" && prm.Len() == 0:
 			r.alloc = f
 		case res.Len() == 1 && prm.Len() == 1 && res.At(0).Type().String() == "net.IP" && prm.At(0).Type().String() == "net.IP":
-			// pairing helpers: which list do they return an element of?
-			for _, v := range returnedValues(f, 0) {
-				if u, ok := v.(*ssa.UnOp); ok {
-					if ia, ok := origin(u.X).(*ssa.IndexAddr); ok {
-						if isFieldLoad(ia.X, natT, fMappedIPs) {
-							r.pairMapped = f
-						}
-						if isFieldLoad(ia.X, natT, fLocalIPs) {
-							r.pairLocal = f
+			// pairing helpers: which list do they return an element of? (path by path: a helper shared by
+			// both directions is followed with this function's arguments)
+			if paths, ok := enumIterPathsU(f, 5000); ok {
+				for pi := range paths {
+					pth := &paths[pi]
+					rt, isRet := pth.last().(*ssa.Return)
+					if !isRet || pth.Loop || rt.Parent() != f {
+						continue
+					}
+					for _, v0 := range retValAt(rt, 0) {
+						if u, ok := pth.value(v0).(*ssa.UnOp); ok {
+							if ia, ok := u.X.(*ssa.IndexAddr); ok {
+								if isFieldLoad(pth.value(ia.X), natT, fMappedIPs) {
+									r.pairMapped = f
+								}
+								if isFieldLoad(pth.value(ia.X), natT, fLocalIPs) {
+									r.pairLocal = f
+								}
+							}
 						}
 					}
 				}
@@ -158,8 +168,21 @@ func natAnchors(c *Ctx) *natRoles {
 }
 
 // addrClass classifies a string-valued SSA value as a component of a chunk address.
-func addrClass(v ssa.Value) string {
-	v = strip(v)
+func addrClass(v ssa.Value) string { return addrClassB(v, nil) }
+
+// addrClassB: bind maps the parameters of a helper being looked through to the call's arguments.
+func addrClassB(v ssa.Value, bind map[ssa.Value]ssa.Value) string {
+	res := func(x ssa.Value) ssa.Value {
+		for i := 0; i < 4; i++ {
+			if a, ok := bind[x]; ok {
+				x = a
+				continue
+			}
+			break
+		}
+		return x
+	}
+	v = res(strip(v))
 	if c, ok := v.(*ssa.Const); ok && c.Value != nil && c.Value.Kind() == constant.String {
 		if constant.StringVal(c.Value) == "" {
 			return "none"
@@ -186,7 +209,7 @@ func addrClass(v ssa.Value) string {
 	}
 	n := callName(call)
 	inner := func(x ssa.Value) string {
-		if ic, ok := x.(*ssa.Call); ok && ic.Call.IsInvoke() {
+		if ic, ok := res(x).(*ssa.Call); ok && ic.Call.IsInvoke() {
 			return ic.Call.Method.Name()
 		}
 		return ""
@@ -199,7 +222,7 @@ func addrClass(v ssa.Value) string {
 		case "getSourceIP":
 			return "src.IP"
 		}
-		return "ip:" + addrClass(call.Call.Args[0])
+		return "ip:" + addrClassB(call.Call.Args[0], bind)
 	case call.Call.IsInvoke() && call.Call.Method.Name() == "String":
 		switch inner(call.Call.Value) {
 		case "DestinationAddr":
@@ -267,7 +290,12 @@ func keyPartsS(v ssa.Value, depth int, subst map[ssa.Value]ssa.Value) []kpart {
 		return []kpart{{V: v}}
 	}
 	if a, ok := subst[v]; ok {
-		return keyPartsS(a, depth+1, nil)
+		// an argument is one part of the key (a constant is a literal part)
+		a = strip(a)
+		if c, ok := a.(*ssa.Const); ok && c.Value != nil && c.Value.Kind() == constant.String {
+			return []kpart{{Lit: constant.StringVal(c.Value)}}
+		}
+		return []kpart{{V: a}}
 	}
 	// a module helper that only assembles a string from its parameters is expanded
 	if call, ok := v.(*ssa.Call); ok && !call.Call.IsInvoke() {
@@ -480,16 +508,17 @@ func switchTable(v ssa.Value, field string) map[string]string {
 		if h == nil || !inModule(h) || len(h.Blocks) == 0 || h.Signature.Results().Len() != 1 {
 			return out
 		}
-		idx := -1
+		bind := map[ssa.Value]ssa.Value{}
+		var sel ssa.Value
 		for i, a := range x.Call.Args {
-			if isNatTypeLoad(a, field) {
-				idx = i
+			if i < len(h.Params) {
+				bind[h.Params[i]] = a
+				if isNatTypeLoad(a, field) {
+					sel = h.Params[i]
+				}
 			}
 		}
-		if idx < 0 || idx >= len(h.Params) {
-			return out
-		}
-		sel := h.Params[idx]
+		isSel := func(y ssa.Value) bool { return (sel != nil && y == sel) || isNatTypeLoad(y, field) }
 		for _, ret := range findInstrs(h, isReturn) {
 			for _, rv := range retValAt(ret.(*ssa.Return), 0) {
 				for _, leaf := range phiLeavesWithPred(rv) {
@@ -497,7 +526,7 @@ func switchTable(v ssa.Value, field string) map[string]string {
 					if leaf.pred != nil {
 						facts = append(guardsOfBlock(leaf.pred), lastBranchFact(leaf.pred, ret.Block())...)
 					}
-					put(labelOf(facts, func(y ssa.Value) bool { return sameOrigin(y, ssa.Value(sel)) }), addrClass(leaf.v))
+					put(labelOf(facts, isSel), addrClassB(leaf.v, bind))
 				}
 			}
 		}
@@ -582,6 +611,10 @@ func (r *natRoles) checkTable(o *Obligation, ph ssa.Value, field string, want ma
 	o.Site(ph.Pos(), "switch on %s in %s: %s", field, fname(valFunc(ph)), fmtTable(t))
 	for k, w := range want {
 		got, ok := t[fmt.Sprint(k)]
+		if !ok {
+			// a constant without a case of its own takes the default
+			got, ok = t["default"]
+		}
 		if !ok {
 			o.Fail(ph.Pos(), "switch on %s has no case for constant %d (not exhaustive)", field, k)
 			continue
@@ -1041,44 +1074,67 @@ func runC02(c *Ctx) {
 	// R6 1:1 mirror
 	o = c.Obl("R6", natT+".1to1", "1:1 mode: the two pairing helpers are mirror images over the index-aligned IP lists; outbound rewrites only the source (paired external IP, port preserved), inbound only the destination (paired local IP, port preserved); unpaired addresses are not translated", 4)
 	pairShape := func(f *ssa.Function, over, ret string) {
+		// path by path (a helper shared by the two directions is followed with this function's arguments)
 		okS := false
-		for _, v := range returnedValues(f, 0) {
-			if isNilConst(v) {
+		paths, okP := enumIterPathsU(f, 5000)
+		if !okP {
+			o.Undecide("the paths of %s could not be enumerated", fname(f))
+			return
+		}
+		seen := map[ssa.Value]bool{}
+		for pi := range paths {
+			pth := &paths[pi]
+			rt, isRet := pth.last().(*ssa.Return)
+			if !isRet || pth.Loop || rt.Parent() != f {
 				continue
 			}
-			u, ok := v.(*ssa.UnOp)
-			if !ok {
-				continue
-			}
-			ia, ok := origin(u.X).(*ssa.IndexAddr)
-			if !ok || !isFieldLoad(ia.X, natT, ret) {
-				o.Fail(v.Pos(), "%s does not return an element of %s", fname(f), ret)
-				continue
-			}
-			// the index is the range index over `over`, and the return is on the Equal(param) edge
-			eqFact := hasFact(u, func(ft fact) bool {
-				return boolFact(ft, func(x ssa.Value) bool {
-					cl, ok := x.(*ssa.Call)
-					if !ok || callName(cl) != "(net.IP).Equal" {
-						return false
-					}
-					a0, a1 := cl.Call.Args[0], cl.Call.Args[1]
-					fromOver := func(y ssa.Value) bool {
-						uu, ok := y.(*ssa.UnOp)
-						if !ok {
+			for _, v0 := range retValAt(rt, 0) {
+				v := pth.value(v0)
+				if isNilConst(v) {
+					continue
+				}
+				u, ok := v.(*ssa.UnOp)
+				if !ok {
+					o.Fail(rt.Pos(), "%s returns something that is not an element of %s", fname(f), ret)
+					continue
+				}
+				ia, ok := u.X.(*ssa.IndexAddr)
+				if !ok || !isFieldLoad(pth.value(ia.X), natT, ret) {
+					o.Fail(v.Pos(), "%s does not return an element of %s", fname(f), ret)
+					continue
+				}
+				// the index is the range index over `over`, and the return is on the Equal(param) edge
+				eqFact := false
+				for _, ft := range pth.Conds {
+					if boolFact(ft, func(x ssa.Value) bool {
+						cl, ok := x.(*ssa.Call)
+						if !ok || callName(cl) != "(net.IP).Equal" {
 							return false
 						}
-						ia2, ok := origin(uu.X).(*ssa.IndexAddr)
-						return ok && isFieldLoad(ia2.X, natT, over) && ia2.Index == ia.Index
+						a0, a1 := cl.Call.Args[0], cl.Call.Args[1]
+						fromOver := func(y ssa.Value) bool {
+							uu, ok := y.(*ssa.UnOp)
+							if !ok {
+								return false
+							}
+							ia2, ok := uu.X.(*ssa.IndexAddr)
+							return ok && isFieldLoad(pth.value(ia2.X), natT, over) && ia2.Index == ia.Index
+						}
+						isArg := func(y ssa.Value) bool { return pth.value(y) == ssa.Value(f.Params[1]) }
+						return (fromOver(a0) && isArg(a1)) || (fromOver(a1) && isArg(a0))
+					}, true) {
+						eqFact = true
 					}
-					return (fromOver(a0) && sameOrigin(a1, ssa.Value(f.Params[1]))) || (fromOver(a1) && sameOrigin(a0, ssa.Value(f.Params[1])))
-				}, true)
-			})
-			o.Site(v.Pos(), "%s returns %s[i] where %s[i].Equal(arg): %v", f.Name(), ret, over, eqFact)
-			if !eqFact {
-				o.Fail(v.Pos(), "%s returns %s[i] without having matched %s[i] against its argument with the same index", fname(f), ret, over)
+				}
+				if !seen[v] {
+					o.Site(v.Pos(), "%s returns %s[i] where %s[i].Equal(arg): %v", f.Name(), ret, over, eqFact)
+				}
+				seen[v] = true
+				if !eqFact {
+					o.Fail(v.Pos(), "%s returns %s[i] without having matched %s[i] against its argument with the same index", fname(f), ret, over)
+				}
+				okS = true
 			}
-			okS = true
 		}
 		if !okS {
 			o.Fail(f.Pos(), "%s never returns a paired address", fname(f))
@@ -1331,13 +1387,27 @@ func runC03(c *Ctx) {
 			outFind = cl
 		}
 	})
+	// the permission set: the filters field of a mapping, or the map made for that field when a mapping is created
+	isFilterSet := func(m ssa.Value) bool {
+		if isFieldLoad(m, mapT, mFilt) {
+			return true
+		}
+		if mk, ok := origin(m).(*ssa.MakeMap); ok {
+			for _, rf := range *mk.Referrers() {
+				if st, ok := rf.(*ssa.Store); ok && st.Val == ssa.Value(mk) && isFieldStore(st, mapT, mFilt) {
+					return true
+				}
+			}
+		}
+		return false
+	}
 	isPerm := func(in ssa.Instruction) bool {
 		mu, ok := in.(*ssa.MapUpdate)
-		return ok && isFieldLoad(mu.Map, mapT, mFilt) && sameOrigin(mu.Key, ssa.Value(outPh[0]))
+		return ok && isFilterSet(mu.Map) && sameOrigin(mu.Key, ssa.Value(outPh[0]))
 	}
 	for _, in := range findU(OUT, func(in ssa.Instruction) bool {
 		mu, ok := in.(*ssa.MapUpdate)
-		return ok && isFieldLoad(mu.Map, mapT, mFilt)
+		return ok && isFilterSet(mu.Map)
 	}) {
 		mu := in.(*ssa.MapUpdate)
 		o.Site(in.Pos(), "filters[%s] = ...", mu.Key.Name())
